@@ -136,6 +136,9 @@ def check_conc(prop, tier):
                 quiescent_points_checked=s2["quiet"] + s["quiet"], returns_checked=s2["retchk"] + s["retchk"])
         classify_tv(res, s2, CONC_MON[prop], KF_OF.get(prop, set()), lambda i: hs2[i], "recorded execution")
         drift += len(s2["drifts"])
+        if prop == "C08":
+            import queue_checks
+            drift += queue_checks.queue_conc_part(res, work, tier, rng)
         if drift and not res.violations:
             for d in (s["drifts"] + s2["drifts"])[:3]:
                 print("DRIFT property=%s line=%d scenario=%d run=%d (step not explained by the model; monitors hold)" % (prop, d["line"], d["sc"], d["run"]))
